@@ -4,6 +4,7 @@ import Rip.Driver.C15
 import Rip.Driver.C13
 import Rip.Driver.C14
 import Rip.Driver.C17
+import Rip.Driver.C18
 
 /-- One case per line: `<property> <case tokens…>` → one observation line. -/
 def dispatch (line : String) : String :=
@@ -16,7 +17,9 @@ def dispatch (line : String) : String :=
     | "c17w" => Rip.Driver.C17.handleW rest
     | "c17r" => Rip.Driver.C17.handleR rest
     | "c17c" => Rip.Driver.C17.handleC rest
+    | "c17l" => Rip.Driver.C17.handleL rest
     | "c17t" => Rip.Driver.C17.handleT rest
+    | "c18" => Rip.Driver.C18.handle rest
     | "c20" => Rip.Driver.C20.handle rest
     | "c12" => Rip.Driver.C12.handle rest
     | "c13" => Rip.Driver.C13.handle rest
